@@ -230,6 +230,41 @@ def nozzle_rest(check, proj):
         check.record("NOZZLE-REST", f.qualname, ok, "geometric source vanishes identically at rest (zero momentum) for any section law" if ok else "source at rest is %s" % A.show(v, 100), f.loc(), key="rest")
 
 
+def rest_defined(check, proj):
+    """a fluid at rest is an admissible uniform state: the time step a solve computes from it must be defined
+    -- no expression of timestep (and of the helpers it calls) divides by a quantity that is the LITERAL zero
+    at zero velocity (0/0 = NaN: the solve returns NaN although rhs() vanishes)"""
+    from ..models import Ctx
+    from ..interp import Vec
+    for key in ("euler1d", "euler2d", "shallowwater"):
+        ctx = Ctx(proj, key)
+        A = ctx.alg
+        f = ctx.method("timestep")
+        W = ctx.prim("")
+        W0 = []
+        for name, v in zip(ctx.spec["prim"], W):
+            if name == "V":
+                W0.append(Vec(A.const(0), A.const(0)))
+            elif name in ("u", "v"):
+                W0.append(A.const(0))
+            else:
+                W0.append(v)
+        construct = "%s [%s]" % (f.qualname, key)
+        try:
+            q = ctx.prim2cons(W0)
+            dt = ctx.call(f, q, A.sym("dx", positive=True), A.sym("cfl", positive=True))
+        except AnalysisError as e:
+            if "division by literal zero" in str(e):
+                check.violation("REST-DEFINED", construct, "for a state at rest (zero velocity, an admissible uniform state) the time step divides by an expression that is exactly zero there (0/0 = NaN, at line %s): every solve from a fluid at rest returns NaN although the right-hand side vanishes" % getattr(ctx.dom, "cur_line", "?"), f.loc(), key="rest-div0")
+            else:
+                check.undecided("REST-DEFINED", construct, "time step at rest not evaluable: %s" % e, f.loc())
+            continue
+        if ctx.dom.is_value(dt):
+            check.ok("REST-DEFINED", construct, "the time step of a state at rest is a defined expression (no division by a literal zero)", f.loc())
+        else:
+            check.undecided("REST-DEFINED", construct, "time step at rest is not a value", f.loc())
+
+
 def body(check):
     from ..disc1d import over_cond_paths
     over_cond_paths(check, _body_paths)
@@ -254,6 +289,7 @@ def _body_paths(check):
     check.guarded("BC-FIXPOINT", "dirichlet", lambda: c16.bc_def_other(check, proj))
     check.guarded("NOZZLE-REST", "euler.nozzle", lambda: nozzle_rest(check, proj))
     check.guarded("INTEG-FIX", "integration", lambda: integ_fix(check, proj))
+    check.guarded("REST-DEFINED", "timestep", lambda: rest_defined(check, proj))
     # the finite-difference Jacobian at a state with an identically vanishing component
     check.guarded("FD-STEP-ZERO", "calc_jacobian", lambda: c06.fd_step_zero(check, proj))
     from . import c15
